@@ -5,7 +5,7 @@ C04 — model of mouette/mesh/io/geogram_ascii.py at chunk level.
 A `.geogram_ascii` file is one datum per line; `[HEAD]`, `[ATTS]`, `[ATTR]` lines start a chunk.
 `splitChunks`/`chunkOf` mirror the chunk detection and `Chunk.__init__`; `importChunks` mirrors the three
 passes of `import_geogram_ascii` (sizes, facet_ptr/cell_ptr, elements + attributes); `exportChunks` mirrors
-`export_geogram_ascii` (with the `facet_ptr` block added by the fix commit of this property).
+`export_geogram_ascii` (with the `facet_ptr` / `cell_ptr` blocks added by the fix commits).
 Substring tests of the Python code (`"vertices" in txt`) are modelled by equality with the canonical quoted
 names: files using other spellings are outside the modelled domain (`none`).
 -/
@@ -301,6 +301,8 @@ def exportChunks (cd : Codec C) (g : GMesh C) : List Chunk :=
       ++ userChunks g.attrs .facetCorners)
   ++ (if m.cells = [] then [] else
       [.atts (Cont.name .cells) m.cells.length]
+      ++ (if m.cells.all (fun c => c.length == 4) then [] else
+          [.attr (Cont.name .cells) cellPtrName "\"index_t\"" 1 ((prefixSums 0 m.cells).map idx0)])
       ++ userChunks g.attrs .cells
       ++ [.atts (Cont.name .cellCorners) m.cells.flatten.length,
           .attr (Cont.name .cellCorners) "\"GEO::Mesh::cell_corners::corner_vertex\"" "\"index_t\"" 1
